@@ -601,6 +601,10 @@ def instances(tier):
     out.append(inst_moment((0, 2, 2), 2, 1, True))
     out.append(inst_arg_nd(((2,), (1, 1, 1)), "argmin", two_level=True))
     out.append(inst_arg_nd(((2,), (1, 1, 1)), "argmax", two_level=True))
+    # a zero-length chunk on the reduced axis (what x[:2:2] leaves behind)
+    out.append(inst_arg((2, 0, 1), "argmin", True))
+    out.append(inst_arg((1, 0), "argmax", False))
+    out.append(inst_arg_nd(((2,), (1, 0, 1)), "argmax"))
     out.append(inst_tree_structure((2, 8), (0, 1), {0: 4, 1: 2}))
     out.append(inst_tree_structure((2, 8), (0, 1), {0: 2, 1: 4}))
     out.append(inst_tree_structure((3, 3), (0, 1), 4, keepdims=False))
